@@ -287,6 +287,8 @@ class JsonSchemaParser:
                 # an attribute of the base class (like dict.items): the property keeps its name as alias
                 excludes = list(attrs)
                 excludes.extend(n for n in dir(self.object_base_cls) if not n.startswith('_'))
+                # the generated name must not take the name of another property either
+                excludes.extend(k for k in properties if k != key)
                 attname = self.get_attname(attname, excludes=excludes) or 'value'
                 if attname in excludes or not valid_attr(attname):
                     attname = self.get_attname('attr_' + attname, excludes=excludes)
